@@ -25,5 +25,11 @@ Definition conv_case_ok (c : nat * nat * nat * nat * nat * nat * nat * list (lis
   let src := fun p k => p * stride + k * dil in
   zll_eqb (map (fun o => flat_map (fun ch => map (fun k => conv_gs_w Z 0%Z Z.add Z.mul P chan src (nth2 g) (nth2 xp) o ch k) (seq 0 Kk)) (seq 0 cg)) (seq 0 Oc)) gw &&
   zlist_eqb (map (fun o => conv_gs_b Z 0%Z Z.add P (nth2 g) o) (seq 0 Oc)) gb.
+(* EmbeddingBag case, one bag: (pad (-1 = none), T, V, D, idx [t], backprop [d], grad_sample rows [v][d] multiplied by the number of
+   non-padding entries for mode mean -- i.e. compared with the model at s = 1) *)
+Definition bag_case_ok (c : Z * nat * nat * nat * list Z * list Z * list (list Z)) : bool :=
+  let '(pad, T, V, D, idx, gb, gs) := c in
+  let padn := if (pad <? 0)%Z then None else Some (Z.to_nat pad) in
+  zll_eqb (map (fun v => map (fun d => bag_gs Z 0%Z Z.add Z.mul padn 1%Z T (nthz gb) (fun t => Z.to_nat (nthz idx t)) v d) (seq 0 D)) (seq 0 V)) gs.
 Fixpoint bad_idx {A} (ok : A -> bool) (i : nat) (cs : list A) : list nat :=
   match cs with [] => [] | c :: r => (if ok c then [] else [i]) ++ bad_idx ok (S i) r end.
